@@ -160,14 +160,17 @@ Qed.
     are what the XML slices prove in general: [Hwf] (the metadata tree is renderable), [Hext]
     (extraction inverts [tree_of]) and [Hdesc] (the metadata handed to the XML generator
     states the offsets, counts and types the binary writer published; [rest] = the sections the
-    XML does not mention: blobs added with [add_blob] that no image refers to). *)
+    XML does not mention: blobs added with [add_blob] that no image refers to) and [Hproto] (the
+    sample value of every prototype element lies within the element's limits:
+    [tree_of_proto_values_ok] of Proofs/SpecProtoFinal.v derives it from conditions on [m]). *)
 Theorem writer_file_wellformed_xml : forall (is : list FileBin.item) (outs : list item_out) (s : pw)
     (m m' : file_meta) (c : render_choices) (rest : list descriptor),
   forallb item_typed is = true ->
   let xml := render c (tree_of m) in
   forall (Hwf : wf_doc (tree_of m) = true)
          (Hext : extract_all pf64 pf32 fdiv (tree_of m) = Ok m')
-         (Hdesc : Permutation (meta_descriptors m' ++ rest) (item_descriptors is outs)),
+         (Hdesc : Permutation (meta_descriptors m' ++ rest) (item_descriptors is outs))
+         (Hproto : proto_values_ok pf64 pf32 (tree_of m) = true),
   wrun (file_prog is xml) pw0 = (s, Ok outs) ->
   let f := d_bytes (pw_dev (fst (pw_flush s))) in
   len f < 2 ^ 64 ->
@@ -178,7 +181,7 @@ Theorem writer_file_wellformed_xml : forall (is : list FileBin.item) (outs : lis
     forall d cnt, In (d, cnt) (combine (meta_descriptors m') cs) ->
                   In (d, cnt) (combine (item_descriptors is outs) (map item_content is)).
 Proof.
-  intros is outs s m m' c rest Hty xml Hwf Hext Hdesc Hrun f Hsize.
+  intros is outs s m m' c rest Hty xml Hwf Hext Hdesc Hproto Hrun f Hsize.
   destruct (dx_of_render c (tree_of m) m' Hwf Hext) as (Hmeta & Hdx & Hdt & Hne). fold xml in Hmeta, Hdx, Hdt, Hne.
   set (dx0 := fun _ : list N => item_descriptors is outs).
   destruct (writer_ok_file_wellformed is xml outs s dx0 Hty Hne Hrun Hsize eq_refl) as [Hw Hd].
@@ -197,7 +200,8 @@ Proof.
   destruct (spec_decode_file_sub f dx0 dxx _ Hd Hwx Hincl) as [Hitems Hdec].
   cbn [dec_xml dec_items] in Hitems, Hdec. rewrite Hdxx in Hdec.
   split.
-  - unfold spec_wellformed_xml. rewrite Hx, Hdx. exact Hwx.
+  - unfold spec_wellformed_xml, xml_proto_values_ok. rewrite Hx, Hdx. fold dxx. rewrite Hwx.
+    unfold xml. rewrite (parse_render c (tree_of m) Hwf). exact Hproto.
   - exists (map (content_of (strip_crc f)) (meta_descriptors m')). split; [|split].
     + unfold spec_decode_file_xml. rewrite Hx, Hmeta. fold dxx. rewrite Hdec. reflexivity.
     + apply map_length.
